@@ -601,7 +601,7 @@ func c07Spec() propSpec {
 		rule: "histories of 3-30 ops on chains whose application changes validator keys and powers at every height (from initial+2 on): honest round macros, proposed headers that are copies with altered ValidatorSet / NextValidatorSet lists (hashes, block hash and signature untouched) delivered before or after the original, Byzantine-but-consistent alternative next sets, next-height headers, replays (incl. foreign list / forged powers), restarts; after every step the voting and committing validator sets must equal the prescribed set (keys, powers, hashes) and every committed header's lists must hash (independent BLAKE2b re-implementation) to its hashes; non-trivial = validator set differs between two consecutive committed heights and a forged-list message was delivered; distinct = fingerprint of (config, op list)",
 		profile: genProfile{
 			w:              map[string]int{"ph": 8, "vote": 3, "round": 10, "replay": 3, "restart": 2, "sment": 1},
-			phVariants:     []int{phFresh, phFresh, phForgedNext, phForgedNext, phForgedCur, phForgedNextPowers, phAltNext},
+			phVariants:     []int{phFresh, phFresh, phForgedNext, phForgedNext, phForgedCur, phForgedNextPowers, phForgedNextPubKeysOnly, phForgedNextPubKeysOnly, phForgedCurPubKeysOnly, phAltNext},
 			pcpVariants:    []int{pcpExact},
 			voteCorr:       []int{vcNone},
 			replayVariants: []int{rvHonest, rvForeignSet, rvForeignPowers},
@@ -612,7 +612,7 @@ func c07Spec() propSpec {
 		},
 		oracle: c07Oracle,
 		nontrivial: func(s *sim) bool {
-			forged := s.labels["ph:v2"]+s.labels["ph:v3"]+s.labels["ph:v9"]+s.labels["replay:v1:ok=false"]+s.labels["replay:v1:ok=true"]+s.labels["replay:v9:ok=false"]+s.labels["replay:v9:ok=true"] > 0
+			forged := s.labels["ph:v2"]+s.labels["ph:v3"]+s.labels["ph:v9"]+s.labels["ph:v10"]+s.labels["ph:v11"]+s.labels["replay:v1:ok=false"]+s.labels["replay:v1:ok=true"]+s.labels["replay:v9:ok=false"]+s.labels["replay:v9:ok=true"] > 0
 			return s.labels["reached-changed-sets"] > 0 && forged
 		},
 	}
@@ -854,6 +854,7 @@ type viewKey struct {
 }
 
 type viewTrack struct {
+	lastContent string
 	lastVersion uint32
 	phs         map[string]bool
 	signers     [2]map[string]map[int]bool
@@ -918,6 +919,7 @@ func (s *sim) c11Observe(consumer string, tracks map[viewKey]*viewTrack, v *tmco
 	}
 	tr.phs = now
 	tr.lastVersion = v.Version
+	tr.lastContent = digestVRVContent(v)
 	tr.seen = true
 }
 
@@ -1018,6 +1020,9 @@ func c11Oracle(s *sim, op Op, idx int) {
 			}
 			s.failf("", "gossip-not-current", "gossip reader is drained but its latest voting view %d/%d has version %d, the mirror's has %d", s.vv.Height, s.vv.Round, have, s.vv.Version)
 			return
+		} else if c := digestVRVContent(&s.vv); c != g.lastContent {
+			s.failf("", "gossip-not-current", "gossip reader is drained and holds voting view %d/%d version %d, but its content differs from the mirror's view of the same version:\nconsumer: %s\nmirror:   %s", s.vv.Height, s.vv.Round, s.vv.Version, trunc(g.lastContent, 1200), trunc(c, 1200))
+			return
 		}
 		if s.cv.Height > 0 {
 			if g := st.gs[viewKey{s.cv.Height, s.cv.Round}]; g == nil || g.lastVersion != s.cv.Version {
@@ -1036,6 +1041,9 @@ func c11Oracle(s *sim, op Op, idx int) {
 					have = g.lastVersion
 				}
 				s.failf("", "state-machine-not-current", "state machine reader is drained on voting round %d/%d with version %d, the mirror's view has %d", e.H, e.R, have, s.vv.Version)
+				return
+			} else if c := digestVRVContent(&s.vv); c != g.lastContent {
+				s.failf("", "state-machine-not-current", "state machine reader is drained and holds view %d/%d version %d, but its content differs from the mirror's view of the same version", e.H, e.R, s.vv.Version)
 				return
 			}
 		case e.H == s.vv.Height && e.R < s.vv.Round:
